@@ -1,6 +1,8 @@
 (* C03 -- the generated table satisfies the two hypotheses of the algebra theorems over R. *)
 From Coq Require Import Reals Lra.
 From Coquelicot Require Import Coquelicot.
+From Coq Require Import RealField.
+Require Import NV.C03.Proofs.
 Require Import NV.C03.Model NV.C03.PtwBase NV.C03.Gen_Ptw NV.C03.Proofs_Ptw NV.C03.TableR NV.C03.Proofs_Real.
 Open Scope R_scope.
 
@@ -48,3 +50,19 @@ Lemma directional_table (e : expr R rname) r d t i :
   is_derive (fun s => eval R 0 Rplus Rmult Rminus rname rtab e (line r d s) i) t
             (snd (evalD R 0 1 Rplus Rmult Rminus rname rtab e (line r d t) d i)).
 Proof. apply directional. exact rtab_ok. Qed.
+
+Lemma jacobian_is_derivative (om : bool) (e : expr R rname) r d t i :
+  validAt rname rtab rdom e (line r d t) i ->
+  is_derive (fun s => eval R 0 Rplus Rmult Rminus rname rtab e (line r d s) i) t
+            (times R 0 Rplus Rmult (snd (lin R 0 1 Rplus Rmult Rminus rname rtab om e (line r d t))) d i).
+Proof.
+  intros H.
+  rewrite (NV.C03.Proofs.jac_dual R 0 1 Rplus Rmult Rminus Ropp RTheory rname rtab rtab_pure om e (line r d t) d i).
+  now apply directional_table.
+Qed.
+
+Lemma valid_example :
+  validAt rname rtab rdom
+    (Sum 2 (Mul (Ptw Nabs (Var 0)) (Ptw Nexp (Var 1))))
+    (line (fun k i => 1) (fun k i => 1) 0) 0.
+Proof. simpl. intros j Hj. unfold line. repeat split; lra. Qed.
